@@ -92,6 +92,21 @@ def all_finite(x):
     return True
 
 
+def used_symbols(x):
+    import numpy as np
+    import sympy as sym
+    if isinstance(x, dict):
+        return set().union(*[used_symbols(v) for v in x.values()]) if x else set()
+    if isinstance(x, (list, tuple)):
+        return set().union(*[used_symbols(v) for v in x]) if x else set()
+    if isinstance(x, np.ndarray):
+        return used_symbols(x.flatten().tolist()) if x.dtype == object else set()
+    e = getattr(x, "expr", x)
+    if isinstance(e, sym.Expr):
+        return {str(f) for f in e.free_symbols}
+    return set()
+
+
 def chain(case, d):
     import blackbird
     from .. import realrun
@@ -99,6 +114,13 @@ def chain(case, d):
     p0 = realrun.loads(d["text"])[1]
     if not (all_finite(p0.operations) and all_finite(p0.target) and all_finite(p0.programtype) and all_finite(p0.variables)):
         return "unspec", d           # the property is quantified over scripts whose values are finite
+    # the property's scope (every parameter occurs in an operation) is decided on the specification's terms; a parameter that
+    # occurs only in a sub-expression that cancels identically ({sq}*0) is gone from the real operations: outside the scope
+    missing = set(p0.parameters) - used_symbols(p0.operations)
+    if missing:
+        if progcmp.params_cancel(case["out"]["prog"], missing, ops_only=True):
+            return "unspec", d
+        return "bad", dict(d, reason="parameters %s of the loaded program occur in none of its operations although the specification's operations depend on them" % sorted(missing))
     p = p0
     texts = []
     stationary = None
